@@ -13,10 +13,17 @@ Tie (model ↔ code):
     mtimes, a key of the same family the table without data, a key of another family nothing.
   * `sym.b64` / `sym.type_reverse` vs `base64` / `utils.type_hint` / `utils.type_reverse` / `Repository.serialize`;
     `sym.legacy` vs `Repository.restore_metadata` (os.utime recorded); `sym.unlock` vs `Repository.unlock` (right / wrong password).
+  * files spanning several READ BLOCKS of the snapshot producer (`impl/c14_blocks.py`): trees whose largest file has 1 … 5 blocks of
+    `Gen.pieceSize` bytes (−1 / exact / +1 / random remainder; alone, with small and empty files, with a second multi-block file;
+    encrypted or not), chunk lengths that force `_chunk_done` to run while the file is still being read; the recorded ranges as
+    tilings vs `layout.inflight` (the in-flight producer model of `ReplicatModel/Inflight.lean`, on the OBSERVED schedule and on the
+    earliest causal one) and vs `layout.records`; theorems `C14.inflight_view` / `inflight_attribution` / `inflight_records_tile`.
 Direct oracle (byte level, supporting role — the PARTIAL part of the claim):
   * replicat writes → the independent reader (`harness/ref/repo_format.py`) re-derives every name, key, chunk table, tiling and
     file content from the raw objects;
-  * the independent writer (modern and pre-1.3 metadata) → replicat unlocks, lists and restores exactly the written tree.
+  * the independent writer (modern and pre-1.3 metadata) → replicat unlocks, lists and restores exactly the written tree;
+  * multi-block trees: for EVERY file the ranges read by the independent reader, in counter order, lie inside their chunks, sum to
+    the file size and select exactly the file's bytes; digest = Hash(file), st_size = size; replicat's restore reproduces the tree.
 """
 import base64
 import json
@@ -24,6 +31,7 @@ import multiprocessing as mp
 import os
 
 from ..common import rng_for, digest
+from ..impl import c14_blocks as B
 from ..impl import runner as R
 from ..impl import symhist as H
 from ..impl import tagged as T
@@ -217,6 +225,15 @@ def w_ref_writes(arg):
     return res
 
 
+# ------------------------------------------------------------------ worker: files spanning several read blocks of the producer
+@H.guarded
+def w_blocks(arg):
+    seed, idx, tier = arg
+    from .. import common
+    common.use_rebuilt_chunker()
+    return B.run_case(seed, idx, tier)
+
+
 # ------------------------------------------------------------------ parent: small model ↔ code ties
 def micro_ties(out, drv):
     from replicat import utils
@@ -340,22 +357,27 @@ def unlock_tie(out, drv):
 def run(out, drv, info):
     quick = out.tier == 'quick'
     n_sym, n_read, n_write = (300, 500, 500) if quick else (1500, 3000, 3000)
+    n_blocks = 24 if quick else 144
     out.rule = ('cases: (a) symbolic history = settings (encrypted?, 5 ciphers, 12 hashes, 6 chunkings) × 4–8 ops of add-key (shared/independent) / snapshot (0–5 files from '
                 'shared blocks, empty files, note) / delete / clean by up to 4 keys, real Repository with tagged adapters vs sym.run, then every remaining snapshot × '
                 'every key listed and restored by the real code vs sym.run_restore and vs the snapshotted tree; (b) replicat writes (real crypto) → '
                 'reference reader; (c) reference writer (modern / pre-1.3 metadata, chunks spanning files) → replicat restore + listings; (d) base64 / JSON hint / '
-                'restore_metadata / unlock micro ties.  non-trivial: (a) ≥ 1 snapshot with ≥ 2 files and ≥ 4 uploads, (b) ≥ 2 files and ≥ 4 objects, (c) ≥ 2 files '
-                'larger than one chunk, (d) non-empty input; distinct = hash of the case summary')
+                'restore_metadata / unlock micro ties; (e) multi-block trees: largest file of 1–4 (thorough: –6) read blocks of the block size extracted from the source '
+                '(−1 / exact / +1 / random remainder) × alone / small + empty files / second multi-block file × random / periodic / zero content × encrypted or not × '
+                'concurrency 1–4 (–8), chunk lengths such that a block holds more chunks than the producer queue (forced in-flight attribution) or the defaults; '
+                'recorded ranges vs layout.inflight (observed and earliest schedule) and layout.records, independent reader tiling per file, replicat restore.  non-trivial: (a) ≥ 1 snapshot with ≥ 2 files and ≥ 4 uploads, (b) ≥ 2 files and ≥ 4 objects, (c) ≥ 2 files '
+                'larger than one chunk, (d) non-empty input, (e) ≥ 1 file of ≥ 2 read blocks with ≥ 1 chunk attributed while that file was unfinished; distinct = hash of the case summary')
     out.assumptions = ['ideal cryptography in the model (free term algebra); the byte-level behaviour of json/base64/hashlib/cryptography is NOT a theorem: it is compared '
                        'against the independent reader/writer harness/ref/repo_format.py (supporting role, PARTIAL claim)',
                        'the reference implementation follows README.md (technical details + glossary) and the property statement',
                        'tagged runs use one upload worker so that the upload order equals the stream order']
     ctx = mp.get_context('fork')
     with ctx.Pool(min(16, os.cpu_count() or 4)) as pool:
+        blk = pool.map_async(w_blocks, [(out.seed, i, out.tier) for i in range(n_blocks)], chunksize=1)     # the long cases first
         sym = pool.map_async(w_symbolic, [(out.seed, i, out.tier) for i in range(n_sym)], chunksize=2)
         rd = pool.map_async(w_ref_reads, [(out.seed, i, out.tier) for i in range(n_read)], chunksize=4)
         wr = pool.map_async(w_ref_writes, [(out.seed, i, out.tier) for i in range(n_write)], chunksize=4)
-        sym, rd, wr = sym.get(), rd.get(), wr.get()
+        sym, rd, wr, blk = sym.get(), rd.get(), wr.get(), blk.get()
     for obs in sym:
         if obs.get('crashed'):
             out.case({'crashed': obs['idx']}, False)
@@ -407,11 +429,38 @@ def run(out, drv, info):
         for sig, what in res['violations']:
             out.violation(sig, what, {'kind': 'read' if res['summary']['dir'] == 'replicat→ref' else 'write', 'seed': out.seed, 'idx': res['idx'], 'tier': out.tier,
                                       'summary': res['summary']})
+    judge_blocks(out, drv, blk)
     try:
         micro_ties(out, drv)
     except Exception as e:  # noqa: BLE001  (the implementation's helpers raised on well-formed input)
         import traceback
         out.disagreement(f'micro ties could not be driven: {type(e).__name__}: {e}', {'kind': 'micro-crash', 'trace': traceback.format_exc()[-1200:]})
+
+
+def judge_blocks(out, drv, results):
+    consts = B.source_constants()
+    out.extra['read_block'] = {'bytes': consts['block'], 'from': consts['block_from'], 'queue_factor': consts['queue_factor'],
+                               'stream_end_advanced_in_read_loop': consts['advanced']}
+    for res in results:
+        if res.get('crashed'):
+            out.case({'crashed': res['idx'], 'dir': 'blocks'}, False)
+            out.disagreement(f'multi-block case #{res["idx"]} could not be driven / interpreted: {res["what"]}', {'kind': 'crash', 'idx': res['idx'], 'trace': res['trace']})
+            continue
+        rp = {'kind': 'blocks', 'seed': out.seed, 'idx': res['idx'], 'tier': out.tier, 'summary': res['summary']}
+        counts = {}
+        if drv is not None:
+            bad, counts = B.judge(res, drv)
+            if bad:
+                out.disagreement(f'multi-block case #{res["idx"]}: ' + '; '.join(bad[:3]), rp)
+            else:
+                out.traces_validated += 1
+        out.case(res['summary'], res.get('multi', 0) >= 1 and (drv is None or counts.get('blocks:cases-with-in-flight-attribution', 0) >= 1))
+        for d in res['dist']:
+            out.count(d)
+        for k, v in list(res['counts'].items()) + list(counts.items()):
+            out.count(k, v)
+        for sig, what in res['violations']:
+            out.violation(sig, what, rp)
 
 
 def _in_child(fn, arg):
@@ -438,5 +487,16 @@ def replay(path, drv):
         for v in res['violations']:
             print('violation', v[0], v[1])
         return 1 if res['violations'] else 0
+    if kind == 'blocks':
+        res = _in_child(w_blocks, (rp['seed'], rp['idx'], rp.get('tier', 'quick')))
+        if res.get('crashed'):
+            print('crashed', res['what'])
+            return 1
+        print('summary', res['summary'])
+        for v in res['violations']:
+            print('violation', v[0], v[1])
+        bad, counts = B.judge(res, drv) if drv is not None else ([], {})
+        print('model', counts, 'disagreements', bad[:5])
+        return 1 if (res['violations'] or bad) else 0
     print('replay kind not supported:', kind)
     return 2
